@@ -1949,3 +1949,55 @@ mod fuzz {
         });
     }
 }
+
+#[cfg(tokio_rs_bytes_verif)]
+pub(crate) fn __verif_is_shared_v(vt: *const Vtable) -> bool {
+    vt == &SHARED_VTABLE as *const Vtable
+}
+
+#[cfg(tokio_rs_bytes_verif)]
+pub(crate) unsafe fn __verif_shared_fields(data: *mut ()) -> (usize, usize, usize, usize) {
+    let shared = data as *mut Shared;
+    (
+        (*shared).ref_count.load(Ordering::Relaxed),
+        (*shared).vec.as_ptr() as usize,
+        (*shared).vec.capacity(),
+        (*shared).original_capacity_repr,
+    )
+}
+
+#[cfg(tokio_rs_bytes_verif)]
+impl BytesMut {
+    /// Verification-only introspection; read at quiescent points only.
+    #[doc(hidden)]
+    pub fn __verif_repr(&self) -> crate::verif::Repr {
+        use crate::verif::{Kind, Repr};
+        let mut r = Repr {
+            kind: Kind::MutVec,
+            tagged_vec: false,
+            ctrl: 0,
+            refcnt: None,
+            vec_off: 0,
+            buf_start: 0,
+            buf_cap: 0,
+            orig_cap_repr: 0,
+        };
+        if self.kind() == KIND_VEC {
+            let off = self.data as usize >> VEC_POS_OFFSET;
+            r.vec_off = off;
+            r.buf_start = (self.ptr.as_ptr() as usize).wrapping_sub(off);
+            r.buf_cap = self.cap + off;
+            r.orig_cap_repr =
+                (self.data as usize & ORIGINAL_CAPACITY_MASK) >> ORIGINAL_CAPACITY_OFFSET;
+        } else {
+            r.kind = Kind::MutArc;
+            r.ctrl = self.data as usize;
+            let (cnt, start, cap, ocr) = unsafe { __verif_shared_fields(self.data as *mut ()) };
+            r.refcnt = Some(cnt);
+            r.buf_start = start;
+            r.buf_cap = cap;
+            r.orig_cap_repr = ocr;
+        }
+        r
+    }
+}
